@@ -300,55 +300,127 @@ theorem lockKeysFinal_foreign {exc : List Nat} {tx cur k : Nat} {keys : List Nat
 /-- ghost bindings of `s` survive in `s'` -/
 def GhostMono (s s' : Store) : Prop := ∀ k v, s.ghost.get k = some v → s'.ghost.get k = some v
 
-theorem writeUTXOs_mono {exc : List Nat} {tx i : Nat} {outs : List (List Nat)} {s s' : Store}
-    (h : writeUTXOs exc tx i outs s = some s') : GhostMono s s' := by
+theorem sideGate_ok {side : Side} {b : Bool} {next : Res} {s' : Store} (h : sideGate side b next = .ok s') :
+    next = .ok s' := by
+  unfold sideGate at h
+  split at h
+  · split at h
+    · exact h
+    · cases h
+    · cases h
+  · exact h
+
+theorem writeUTXOs_mono {exc : List Nat} {kd : OutKinds} {side : Side} {tx i : Nat} {outs : List OutSpec} {s s' : Store}
+    (h : writeUTXOs exc kd side tx i outs s = .ok s') : GhostMono s s' := by
   induction outs generalizing s i with
-  | nil => simp only [writeUTXOs, Option.some.injEq] at h; subst h; exact fun _ _ h => h
-  | cons ks rest ih =>
+  | nil => simp only [writeUTXOs, Res.ok.injEq] at h; subst h; exact fun _ _ h => h
+  | cons o rest ih =>
     unfold writeUTXOs at h
     split at h
-    · cases h
-    · next s1 h1 =>
-      intro k v hv
-      exact ih h k v ((lockKeysFinal_ext h1).2.2.2.2.2.2 k v hv)
+    · exact ih h
+    · split at h
+      · cases h
+      · next s1 h1 =>
+        intro k v hv
+        exact ih (s := { s1 with utxo := s1.utxo.set (tx, i) 0 }) (sideGate_ok h) k v
+          ((lockKeysFinal_ext h1).2.2.2.2.2.2 k v hv)
 
-theorem writeUTXOs_foreign {exc : List Nat} {tx cur k i : Nat} {outs : List (List Nat)} {ks : List Nat} {s : Store}
-    (hks : ks ∈ outs) (hk : k ∈ ks) (hg : s.ghost.get k = some cur) (hne : cur ≠ tx) (hx : tx ∉ exc) :
-    writeUTXOs exc tx i outs s = none := by
+/-- a materialised output with a key bound to another transaction stops the finalization -/
+theorem writeUTXOs_foreign {exc : List Nat} {kd : OutKinds} {side : Side} {tx cur k i : Nat}
+    {outs : List OutSpec} {o : OutSpec} {s : Store}
+    (ho : o ∈ outs) (hns : o.typ ∉ kd.skipped) (hk : k ∈ o.keys) (hg : s.ghost.get k = some cur)
+    (hne : cur ≠ tx) (hx : tx ∉ exc) : ∀ s', writeUTXOs exc kd side tx i outs s ≠ .ok s' := by
   induction outs generalizing s i with
-  | nil => cases hks
-  | cons ks' rest ih =>
-    unfold writeUTXOs
-    split
-    · rfl
-    · next s1 h1 =>
-      by_cases e : ks = ks'
-      · subst e
-        rw [lockKeysFinal_foreign hk hg hne hx] at h1; cases h1
-      · have hks' : ks ∈ rest := by
-          cases hks with
-          | head => exact absurd rfl e
-          | tail _ h => exact h
-        exact ih hks' ((lockKeysFinal_ext h1).2.2.2.2.2.2 k cur hg)
+  | nil => cases ho
+  | cons o' rest ih =>
+    intro s' h
+    unfold writeUTXOs at h
+    split at h
+    · next hsk =>
+      have : o ∈ rest := by
+        cases ho with
+        | head => exact absurd hsk hns
+        | tail _ h => exact h
+      exact ih this hg s' h
+    · split at h
+      · cases h
+      · next s1 h1 =>
+        by_cases e : o = o'
+        · subst e
+          rw [lockKeysFinal_foreign hk hg hne hx] at h1; cases h1
+        · have : o ∈ rest := by
+            cases ho with
+            | head => exact absurd rfl e
+            | tail _ h => exact h
+          exact ih (s := { s1 with utxo := s1.utxo.set (tx, i) 0 }) this
+            ((lockKeysFinal_ext h1).2.2.2.2.2.2 k cur hg) s' (sideGate_ok h)
 
-theorem finalizeTransaction_mono {exc : List Nat} {t : Tx} {s s' : Store}
-    (h : finalizeTransaction exc s t = some s') : GhostMono s s' := by
+theorem finalizeTransaction_mono {exc : List Nat} {kd : OutKinds} {side : Side} {t : Tx} {s s' : Store}
+    (h : finalizeTransaction exc kd side s t = .ok s') : GhostMono s s' := by
   unfold finalizeTransaction at h
   split at h
-  · simp only [Option.some.injEq] at h; subst h; exact fun _ _ h => h
-  · exact fun k v hv => writeUTXOs_mono h k v hv
+  · simp only [Res.ok.injEq] at h; subst h; exact fun _ _ h => h
+  · split at h
+    · exact fun k v hv => writeUTXOs_mono h k v hv
+    · cases h
 
-theorem snapshotLoop_mono {exc : List Nat} {node : Nat} {txs : List Tx} {s s' : Store}
-    (h : snapshotLoop exc node txs s = some s') : GhostMono s s' := by
+theorem snapshotLoop_mono {exc : List Nat} {kd : OutKinds} {side : Side} {node : Nat} {txs : List Tx} {s s' : Store}
+    (h : snapshotLoop exc kd side node txs s = .ok s') : GhostMono s s' := by
   induction txs generalizing s with
-  | nil => simp only [snapshotLoop, Option.some.injEq] at h; subst h; exact fun _ _ h => h
+  | nil => simp only [snapshotLoop, Res.ok.injEq] at h; subst h; exact fun _ _ h => h
   | cons t ts ih =>
     unfold snapshotLoop at h
     split at h
-    · cases h
     · next s1 h1 =>
       intro k v hv
       exact ih h k v (finalizeTransaction_mono h1 k v hv)
+    · next hnot => exact absurd h (hnot s')
+
+/-! ### finalization binds every key of every materialised output -/
+
+theorem lockGhostKey_binds {exc : List Nat} {s s' : Store} {k tx : Nat} {fork : Bool}
+    (h : lockGhostKey exc s k tx fork = some s') (hx : tx ∉ exc) : s'.ghost.get k = some tx := by
+  rcases lockGhostKey_some h with ⟨_, rfl⟩ | ⟨cur, hg, _, rfl, hc⟩
+  · exact Map.get_set_same _ _ _
+  · rcases hc with ⟨_, he⟩ | he
+    · exact absurd he hx
+    · rw [hg, he]
+
+theorem lockKeysFinal_binds {exc : List Nat} {tx : Nat} {keys : List Nat} {s s' : Store}
+    (h : lockKeysFinal exc tx keys s = some s') (hx : tx ∉ exc) : ∀ k ∈ keys, s'.ghost.get k = some tx := by
+  induction keys generalizing s with
+  | nil => intro k hk; cases hk
+  | cons k' ks ih =>
+    unfold lockKeysFinal at h
+    split at h
+    · cases h
+    · next s1 h1 =>
+      intro k hk
+      cases hk with
+      | head => exact (lockKeysFinal_ext h).2.2.2.2.2.2 _ _ (lockGhostKey_binds h1 hx)
+      | tail _ hk' => exact ih h k hk'
+
+theorem writeUTXOs_binds {exc : List Nat} {kd : OutKinds} {side : Side} {tx i : Nat} {outs : List OutSpec} {s s' : Store}
+    (h : writeUTXOs exc kd side tx i outs s = .ok s') (hx : tx ∉ exc) :
+    ∀ o ∈ outs, o.typ ∉ kd.skipped → ∀ k ∈ o.keys, s'.ghost.get k = some tx := by
+  induction outs generalizing s i with
+  | nil => intro o ho; cases ho
+  | cons o' rest ih =>
+    unfold writeUTXOs at h
+    split at h
+    · next hsk =>
+      intro o ho hns
+      cases ho with
+      | head => exact absurd hsk hns
+      | tail _ ho' => exact ih h o ho' hns
+    · split at h
+      · cases h
+      · next s1 h1 =>
+        have hrest := sideGate_ok h
+        intro o ho hns k hk
+        cases ho with
+        | head => exact writeUTXOs_mono hrest k tx (lockKeysFinal_binds h1 hx k hk)
+        | tail _ ho' => exact ih hrest o ho' hns k hk
 
 /-- no call ever changes or removes an existing ghost binding -/
 theorem exec_ghost_mono {c : Cfg} {s s' : Store} {op : Op} (h : exec c s op = .ok s') : GhostMono s s' := by
@@ -401,16 +473,12 @@ theorem exec_ghost_mono {c : Cfg} {s s' : Store} {op : Op} (h : exec c s op = .o
         · cases h
         · simp only [Res.ok.injEq] at h; subst h; exact hv
     · cases h
-  | snapshot node txs =>
+  | snapshot node txs side =>
     simp only [exec, writeSnapshot] at h
     split at h
     · cases h
     · split at h
-      · split at h
-        · cases h
-        · next s1 h1 =>
-          simp only [Res.ok.injEq] at h; subst h
-          exact snapshotLoop_mono h1
+      · exact snapshotLoop_mono h
       · cases h
 
 /-! ## holders over whole histories -/
@@ -444,85 +512,87 @@ theorem FinRel.trans {a b c : Store} (h1 : FinRel a b) (h2 : FinRel b c) : FinRe
       · exact Or.inr (h2.finMono _ h')
     · exact Or.inr h
 
-theorem writeUTXOs_rel {exc : List Nat} {tx i : Nat} {outs : List (List Nat)} {s s' : Store}
-    (h : writeUTXOs exc tx i outs s = some s') :
+theorem writeUTXOs_rel {exc : List Nat} {kd : OutKinds} {side : Side} {tx i : Nat} {outs : List OutSpec} {s s' : Store}
+    (h : writeUTXOs exc kd side tx i outs s = .ok s') :
     s'.deposit = s.deposit ∧ s'.mint = s.mint ∧ s'.tx = s.tx ∧ s'.fin = s.fin ∧
     (∀ y, y.1 ≠ tx → s'.utxo.get y = s.utxo.get y) ∧
     (∀ y, (s'.utxo.get y).isSome → (s.utxo.get y).isSome ∨ y.1 = tx) := by
   induction outs generalizing s i with
   | nil =>
-    simp only [writeUTXOs, Option.some.injEq] at h; subst h
+    simp only [writeUTXOs, Res.ok.injEq] at h; subst h
     exact ⟨rfl, rfl, rfl, rfl, fun _ _ => rfl, fun _ h => Or.inl h⟩
-  | cons ks rest ih =>
+  | cons o rest ih =>
     unfold writeUTXOs at h
     split at h
-    · cases h
-    · next s1 h1 =>
-      obtain ⟨u1, d1, m1, t1, f1, _, _⟩ := lockKeysFinal_ext h1
-      obtain ⟨d2, m2, t2, f2, k2, n2⟩ := ih h
-      refine ⟨d2.trans d1, m2.trans m1, t2.trans t1, f2.trans f1, ?_, ?_⟩
-      · intro y hy
-        rw [k2 y hy]
-        show (s1.utxo.set (tx, i) 0).get y = s.utxo.get y
-        rw [Map.get_set_ne _ _ (fun e => hy (by rw [← e])), u1]
-      · intro y hy
-        rcases n2 y hy with h' | h'
-        · by_cases e : (tx, i) = y
-          · exact Or.inr (by rw [← e])
-          · have : (s1.utxo.set (tx, i) 0).get y = s.utxo.get y := by
-              rw [Map.get_set_ne _ _ e, u1]
-            exact Or.inl (by rw [← this]; exact h')
-        · exact Or.inr h'
+    · exact ih h
+    · split at h
+      · cases h
+      · next s1 h1 =>
+        obtain ⟨u1, d1, m1, t1, f1, _, _⟩ := lockKeysFinal_ext h1
+        obtain ⟨d2, m2, t2, f2, k2, n2⟩ := ih (sideGate_ok h)
+        refine ⟨d2.trans d1, m2.trans m1, t2.trans t1, f2.trans f1, ?_, ?_⟩
+        · intro y hy
+          rw [k2 y hy]
+          show (s1.utxo.set (tx, i) 0).get y = s.utxo.get y
+          rw [Map.get_set_ne _ _ (fun e => hy (by rw [← e])), u1]
+        · intro y hy
+          rcases n2 y hy with h' | h'
+          · by_cases e : (tx, i) = y
+            · exact Or.inr (by rw [← e])
+            · have : (s1.utxo.set (tx, i) 0).get y = s.utxo.get y := by
+                rw [Map.get_set_ne _ _ e, u1]
+              exact Or.inl (by rw [← this]; exact h')
+          · exact Or.inr h'
 
-theorem finalizeTransaction_rel {exc : List Nat} {t : Tx} {s s' : Store}
-    (h : finalizeTransaction exc s t = some s') : FinRel s s' := by
+theorem finalizeTransaction_rel {exc : List Nat} {kd : OutKinds} {side : Side} {t : Tx} {s s' : Store}
+    (h : finalizeTransaction exc kd side s t = .ok s') : FinRel s s' := by
   unfold finalizeTransaction at h
   split at h
-  · simp only [Option.some.injEq] at h; subst h; exact FinRel.refl _
+  · simp only [Res.ok.injEq] at h; subst h; exact FinRel.refl _
   · next hfin =>
-    obtain ⟨d, m, tx, f, k, n⟩ := writeUTXOs_rel h
-    refine ⟨d, m, tx, ?_, ?_, ?_⟩
-    · intro h' hh
-      rw [f]
-      show ((s.fin.set t.id ()).get h').isSome
-      rw [Map.get_set]; split
-      · rfl
-      · exact hh
-    · intro y hy
-      have : y.1 ≠ t.id := by
-        intro e; rw [e, hfin] at hy; cases hy
-      exact k y this
-    · intro y hy
-      rcases n y hy with h' | h'
-      · exact Or.inl h'
-      · refine Or.inr ?_
-        rw [f, h']
-        show ((s.fin.set t.id ()).get t.id).isSome
-        rw [Map.get_set_same]; rfl
+    split at h
+    · obtain ⟨d, m, tx, f, k, n⟩ := writeUTXOs_rel h
+      refine ⟨d, m, tx, ?_, ?_, ?_⟩
+      · intro h' hh
+        rw [f]
+        show ((s.fin.set t.id ()).get h').isSome
+        rw [Map.get_set]; split
+        · rfl
+        · exact hh
+      · intro y hy
+        have : y.1 ≠ t.id := by
+          intro e; rw [e, hfin] at hy; cases hy
+        exact k y this
+      · intro y hy
+        rcases n y hy with h' | h'
+        · exact Or.inl h'
+        · refine Or.inr ?_
+          rw [f, h']
+          show ((s.fin.set t.id ()).get t.id).isSome
+          rw [Map.get_set_same]; rfl
+    · cases h
 
-theorem snapshotLoop_rel {exc : List Nat} {node : Nat} {txs : List Tx} {s s' : Store}
-    (h : snapshotLoop exc node txs s = some s') : FinRel s s' := by
+theorem snapshotLoop_rel {exc : List Nat} {kd : OutKinds} {side : Side} {node : Nat} {txs : List Tx} {s s' : Store}
+    (h : snapshotLoop exc kd side node txs s = .ok s') : FinRel s s' := by
   induction txs generalizing s with
-  | nil => simp only [snapshotLoop, Option.some.injEq] at h; subst h; exact FinRel.refl _
+  | nil => simp only [snapshotLoop, Res.ok.injEq] at h; subst h; exact FinRel.refl _
   | cons t ts ih =>
     unfold snapshotLoop at h
     split at h
-    · cases h
     · next s1 h1 =>
       have r1 := finalizeTransaction_rel h1
       have r2 : FinRel s1 { s1 with unique := s1.unique.set (node, t.id) () } :=
         ⟨rfl, rfl, rfl, fun _ h => h, fun _ _ => rfl, fun _ h => Or.inl h⟩
       exact (r1.trans r2).trans (ih h)
+    · next hnot => exact absurd h (hnot s')
 
-theorem exec_snapshot_rel {c : Cfg} {s s' : Store} {node : Nat} {txs : List Tx}
-    (h : exec c s (.snapshot node txs) = .ok s') : FinRel s s' := by
+theorem exec_snapshot_rel {c : Cfg} {s s' : Store} {node : Nat} {txs : List Tx} {side : Side}
+    (h : exec c s (.snapshot node txs side) = .ok s') : FinRel s s' := by
   simp only [exec, writeSnapshot] at h
   split at h
   · cases h
   · split at h
-    · split at h
-      · cases h
-      · next s1 h1 => simp only [Res.ok.injEq] at h; subst h; exact snapshotLoop_rel h1
+    · exact snapshotLoop_rel h
     · cases h
 
 /-- what `LockDepositInput` can do -/
@@ -589,7 +659,7 @@ theorem writeTransaction_ok {s s' : Store} {t : Tx} (h : writeTransaction s t = 
 /-- the lock families other than the one a call is about -/
 theorem exec_frame {c : Cfg} {s s' : Store} {op : Op} (h : exec c s op = .ok s') :
     (∀ h', (s.fin.get h').isSome → (s'.fin.get h').isSome) ∧
-    ((∀ ins tx f, op ≠ .lockUTXOs ins tx f) → (∀ n txs, op ≠ .snapshot n txs) → s'.utxo = s.utxo ∧ s'.fin = s.fin) ∧
+    ((∀ ins tx f, op ≠ .lockUTXOs ins tx f) → (∀ n txs sd, op ≠ .snapshot n txs sd) → s'.utxo = s.utxo ∧ s'.fin = s.fin) ∧
     ((∀ d tx f, op ≠ .lockDeposit d tx f) → s'.deposit = s.deposit) ∧
     ((∀ b a tx f, op ≠ .lockMint b a tx f) → s'.mint = s.mint) := by
   cases op with
@@ -616,9 +686,9 @@ theorem exec_frame {c : Cfg} {s s' : Store} {op : Op} (h : exec c s op = .ok s')
     simp only [exec] at h
     rcases writeTransaction_ok h with rfl | rfl <;>
       exact ⟨fun _ hh => hh, fun _ _ => ⟨rfl, rfl⟩, fun _ => rfl, fun _ => rfl⟩
-  | snapshot node txs =>
+  | snapshot node txs side =>
     have r := exec_snapshot_rel h
-    exact ⟨r.finMono, fun _ hn => absurd rfl (hn node txs), fun _ => r.deposit, fun _ => r.mint⟩
+    exact ⟨r.finMono, fun _ hn => absurd rfl (hn node txs side), fun _ => r.deposit, fun _ => r.mint⟩
 
 /-- `Inv` is an invariant of every call -/
 theorem exec_inv {c : Cfg} {s s' : Store} {op : Op} (h : exec c s op = .ok s') (hi : Inv s) : Inv s' := by
@@ -626,7 +696,7 @@ theorem exec_inv {c : Cfg} {s s' : Store} {op : Op} (h : exec c s op = .ok s') (
   | lockUTXOs ins tx fork =>
     obtain ⟨f, _, _, _, _, _, _, _, dom⟩ := lockUTXOs_frame (by simpa [exec] using h)
     intro y hy; rw [f]; rw [dom y] at hy; exact hi y hy
-  | snapshot node txs =>
+  | snapshot node txs side =>
     have r := exec_snapshot_rel h
     intro y hy
     rcases r.utxoNew y hy with h' | h'
@@ -660,7 +730,7 @@ theorem exec_holder_utxo {c : Cfg} {s s' : Store} {op : Op} {x : Nat × Nat} {t 
       · subst e; exact hin x hm
       · exact absurd h' (lockUTXOs_blocked hm hx h0 e (by simpa [Prot, Op.isFork] using hp) s')
     · rw [hout x hm]; exact hx
-  | snapshot node txs =>
+  | snapshot node txs side =>
     have r := exec_snapshot_rel h
     rw [r.utxoKeep x (hi x (by rw [hx]; rfl))]; exact hx
   | lockDeposit d tx fork =>
